@@ -34,6 +34,9 @@ def shards(tier, seed):
             sh += mk('normsq: all ordered tuples d<=2', c, ('T', None), ('B',), 1, kind='un')
     d3 = [spaces.cfg_pqr(3, 0, 0), spaces.cfg_pqr(2, 0, 1), spaces.cfg_pqr(1, 1, 1), spaces.cfg_sig([-1, 0, 1])]
     if tier == 'quick':
+        for c in [spaces.cfg_pqr(4, 0, 0), spaces.cfg_pqr(3, 0, 1)]:
+            # pure-parity operands that are not versors (general bivector, even element, vector+trivector) against single-grade operands
+            sh += mk('d=4: non-versor pure-parity operands x single grade blocks', c, ('list', 'parity4'), ('list', 'single4'), 4, kind='bin')
         for c in d3:
             sh += mk('d=3: canonical subsets of <=2 blades (4 configurations)', c, ('S', 2), ('S', 2), 6, kind='bin')
             sh += mk('normsq: all 256 canonical subsets d=3', c, ('S', None), ('B',), 4, kind='un')
@@ -68,6 +71,14 @@ def shards(tier, seed):
 def _expand_special(shard, alg):
     for side in ('left', 'right'):
         sp = shard[side]
+        if sp[0] == 'list' and sp[1] in ('parity4', 'single4'):
+            c = tuple(alg.canon2bin.values())
+            g = spaces.grade_of
+            blk = lambda *gs: [k for k in c if g(k) in gs]
+            if sp[1] == 'parity4':
+                shard[side] = ['list', [blk(2), blk(0, 2), blk(1, 3), [c[5], c[10]]]]
+            else:
+                shard[side] = ['list', [blk(0), blk(1), blk(alg.d), blk(alg.d - 1)]]
         if sp[0] == 'list' and sp[1] == 'even-vec-biv':
             c = tuple(alg.canon2bin.values())
             g = spaces.grade_of
